@@ -222,6 +222,7 @@ fn sign_mode(threads: usize, seed: u64) -> (u64, u64, u64) {
 fn main() {
     let a: Vec<String> = std::env::args().collect();
     let (n, d, v) = match a.get(1).map(|s| s.as_str()) {
+        Some("warmup") => (0, 0, 0),
         Some("decode") => decode_mode(a[2].parse().unwrap(), a[3].parse().unwrap()),
         Some("sign") => sign_mode(a[2].parse().unwrap(), a[3].parse().unwrap()),
         _ => {
